@@ -38,6 +38,8 @@ def expr(it):
         return '%%position(%s, %s)' % (t, '0x1000 << 16' if n == 0x10000000 else hex(n))
     if f in ('off', 'offk'):
         return '%%offset(%s)' % t
+    if f == 'neg':
+        return '%d - %s' % (n, t)
     if f == 'hipos':
         return '%%hi(%%position(%s, %s))' % (t, hex(n))
     if f == 'lopos':
